@@ -52,6 +52,7 @@ def run(chk):
         "function equals min(limit-|acquired|, limit_per_host-|acquired_host|) with 0 = unlimited on a 4^4 grid."
     )
     chk.not_decided = "fairness, the numeric invariant |acquired| <= limit as an inequality over all schedules, timing."
+    chk.explanation += " After the defect hunt: a woken waiter that cannot use the slot passes the wake-up on; re-acquiring a pooled connection is gated by the capacity test; a created or re-acquired connection is closed or tracked on every exit."
     chk.assumptions.append("asyncio delivers CancelledError at the current await only; Future.set_result/cancel semantics as documented")
     cls = repo.cls(MOD, CLS)
     connect = repo.func(MOD, f"{CLS}.connect")
